@@ -221,6 +221,49 @@ func main() {
 				}}
 			}
 			inList := func(c *astutil.Cursor) bool { return c.Index() >= 0 }
+			// `go f(a, b)`  ->  { vrtGoFn := f; vrtGoA1, vrtGoA2 := a, b; verifrt.Go(func() { vrtGoFn(vrtGoA1, vrtGoA2) }) }
+			// (function value and arguments are evaluated at the go statement, as the language prescribes)
+			astutil.Apply(f, func(c *astutil.Cursor) bool {
+				gs, ok := c.Node().(*ast.GoStmt)
+				if !ok {
+					return true
+				}
+				file, line := pos(gs)
+				skip := !inList(c)
+				for _, a := range gs.Call.Args {
+					if tv, ok := info.Types[a]; ok {
+						if _, isTuple := tv.Type.(*types.Tuple); isTuple {
+							skip = true
+						}
+					}
+				}
+				if skip {
+					sites = append(sites, site{"go-skipped", file, line, exprString(p.Fset, gs.Call.Fun)})
+					return true
+				}
+				tmpN++
+				fn := ast.NewIdent(fmt.Sprintf("vrtGoFn%d", tmpN))
+				stmts := []ast.Stmt{&ast.AssignStmt{Lhs: []ast.Expr{fn}, Tok: token.DEFINE, Rhs: []ast.Expr{gs.Call.Fun}}}
+				var argIds []ast.Expr
+				for i := range gs.Call.Args {
+					argIds = append(argIds, ast.NewIdent(fmt.Sprintf("vrtGoA%d_%d", tmpN, i)))
+				}
+				if len(argIds) > 0 {
+					stmts = append(stmts, &ast.AssignStmt{Lhs: argIds, Tok: token.DEFINE, Rhs: gs.Call.Args})
+				}
+				inner := &ast.CallExpr{Fun: fn, Args: argIds, Ellipsis: gs.Call.Ellipsis}
+				if gs.Call.Ellipsis != token.NoPos {
+					inner.Ellipsis = 1
+				}
+				stmts = append(stmts, &ast.ExprStmt{X: &ast.CallExpr{
+					Fun:  &ast.SelectorExpr{X: ast.NewIdent("verifrt"), Sel: ast.NewIdent("Go")},
+					Args: []ast.Expr{&ast.FuncLit{Type: &ast.FuncType{Params: &ast.FieldList{}}, Body: &ast.BlockStmt{List: []ast.Stmt{&ast.ExprStmt{X: inner}}}}},
+				}})
+				sites = append(sites, site{"go", file, line, exprString(p.Fset, gs.Call.Fun)})
+				c.Replace(&ast.BlockStmt{List: stmts})
+				needRT, changed = true, true
+				return true
+			}, nil)
 			astutil.Apply(f, func(c *astutil.Cursor) bool {
 				n := c.Node()
 				stmt, ok := n.(ast.Stmt)
